@@ -15,7 +15,12 @@ func (op *FsTxn) commitWait(wait bool) bool {
 	verifCommit(op, wait)
 	ok := op.Atxn.Op.CommitWait(wait)
 	verifCommitted(op, ok)
-	op.postCommit()
+	if ok {
+		op.postCommit()
+	} else {
+		// nothing reached the journal
+		op.Abort()
+	}
 	return ok
 }
 
@@ -47,7 +52,21 @@ func (op *FsTxn) CommitFh() bool {
 // buffers that need to be written to log. So, call commit.
 func (op *FsTxn) Abort() bool {
 	verifAbort(op)
+	op.dropModified()
 	op.releaseInodes()
 	op.Atxn.PostAbort()
 	return true
+}
+
+// The transaction may have changed the cached copies of the inodes it
+// holds (and their name caches) without the change reaching the
+// journal; forget those copies so that they are read back from disk.
+func (op *FsTxn) dropModified() {
+	if !op.Atxn.Modified() {
+		return
+	}
+	for _, ip := range op.inodes {
+		cslot := op.Fs.Icache.LookupSlot(uint64(ip.Inum))
+		cslot.Obj = nil
+	}
 }
